@@ -141,6 +141,9 @@ def job(j):
                     sets.append({'atoms': [atoms.get(i) for i in range(mol.GetNumAtoms())], 'bonds': bonds, 'nfrag': len(ps)})
                 r['products'] = sets
                 r['nmatch'] = len(q.reactantquery[list(q.reactantquery)[0]].GetQueryMatches(mol))
+                # the same run on the molecule WITHOUT the harness's atom-map numbers: fragments and atoms per product set
+                plain = Chem.AddHs(Chem.MolFromSmiles(smi))
+                r['plain'] = [{'nfrag': len(ps), 'natoms': sum(f.GetNumAtoms() for f in ps)} for ps in q.RunReactants(plain)]
             except Timeout:
                 raise
             except Exception as e:
